@@ -3,7 +3,9 @@
 //!
 //! Case line: `<entries> | <hex line>` where `<entries>` is a blank-separated list of
 //! `name:n:<hex value>` (ordinary alias) / `name:g:<hex value>` (global alias).
-//! Observation (impl): `ok <hex of the substituted text> T=<final alias table>` — the content of the real
+//! Observation (impl): `ok <hex of the substituted text> C=<origins> T=<final alias table>` — `C=` is the origin
+//! chain of EVERY character of the buffer (`Lexer::location_range(i..i+1)` followed through `Source::Alias`,
+//! alias names innermost first, run-length coded `<n>x<hex name>>…`, `-` = typed) — the content of the real
 //! lexer's character buffer after every command line was parsed with the aliases
 //! (`Lexer::source_string`) — or `syntax-error` / `TIMEOUT`.
 //! Like `read_eval_loop`, the harness parses one command line at a time on ONE lexer and, before parsing
@@ -140,6 +142,9 @@ struct Parsed {
     printed: Option<Vec<String>>,
     /// content of the lexer's buffer up to the current index
     text: String,
+    /// origin chain (alias names, innermost first) of every character of `text`, read from the real
+    /// lexer with `Lexer::location_range(i..i + 1)`
+    origins: Vec<Vec<String>>,
     /// origin chains (innermost first) of all words of simple commands found in the result
     chains: Vec<Vec<String>>,
     /// the alias table at the end, sorted by name
@@ -187,6 +192,12 @@ fn real_parse(es: &[Entry], line: &str, budget: usize, exec: bool) -> Parsed {
     let mut names: Vec<String> = env.aliases.iter().map(|e| e.0.name.clone()).collect();
     let mut rounds = 0usize;
     let mut text = String::new();
+    let mut origins: Vec<Vec<String>> = vec![];
+    fn push_origins(lexer: &Lexer, origins: &mut Vec<Vec<String>>) {
+        for i in 0..lexer.index() {
+            origins.push(chain_of(&lexer.location_range(i..i + 1)));
+        }
+    }
     let cell = RefCell::new(&mut env);
     loop {
         rounds += 1;
@@ -196,6 +207,7 @@ fn real_parse(es: &[Entry], line: &str, budget: usize, exec: bool) -> Parsed {
         // as read_eval_loop does: drop the consumed buffer when nothing is pending, refresh the mode
         if !lexer.pending() {
             text.push_str(&lexer.source_string(0..lexer.index()));
+            push_origins(&lexer, &mut origins);
             lexer.flush();
         }
         lexer.set_mode(yash_env::parser::Mode::from(&cell.borrow().options));
@@ -239,6 +251,7 @@ fn real_parse(es: &[Entry], line: &str, budget: usize, exec: bool) -> Parsed {
         }
     }
     text.push_str(&lexer.source_string(0..lexer.index()));
+    push_origins(&lexer, &mut origins);
     drop(cell);
     let mut t: Vec<String> = env
         .aliases
@@ -251,7 +264,29 @@ fn real_parse(es: &[Entry], line: &str, budget: usize, exec: bool) -> Parsed {
         ka.cmp(&kb)
     });
     let table = if t.is_empty() { "-".to_string() } else { t.join(",") };
-    Parsed { printed, text, chains, table, names }
+    Parsed { printed, text, origins, chains, table, names }
+}
+
+/// run-length form of the per-character origins: `<count>x<chain>` per maximal run, chain = hex names
+/// joined by `>` (innermost first), `-` = typed character
+fn show_origins(o: &[Vec<String>]) -> String {
+    if o.is_empty() {
+        return "-".into();
+    }
+    let mut runs: Vec<(usize, &Vec<String>)> = vec![];
+    for c in o {
+        match runs.last_mut() {
+            Some((n, d)) if *d == c => *n += 1,
+            _ => runs.push((1, c)),
+        }
+    }
+    runs.iter()
+        .map(|(n, c)| {
+            let names: Vec<String> = c.iter().map(|x| enc_str(x)).collect();
+            format!("{n}x{}", if names.is_empty() { "-".to_string() } else { names.join(">") })
+        })
+        .collect::<Vec<_>>()
+        .join(",")
 }
 
 fn show_printed(p: &Option<Vec<String>>) -> String {
@@ -290,7 +325,7 @@ fn run_case(case: &str) -> (String, String) {
                 } else {
                     "ok".into()
                 };
-                format!("ok {} T={}", enc_str(&p.text), p.table)
+                format!("ok {} C={} T={}", enc_str(&p.text), show_origins(&p.origins), p.table)
             }
         }
     });
@@ -337,6 +372,15 @@ fn value_pool(names: &[&str]) -> Vec<String> {
     }
     for w in ["é", "é ", "あ ", "😀 ", "x é ", "é x ", "あ😀 ", "éé", "x あ", "'é' ", "😀"] {
         v.push(w.into());
+    }
+    // Unicode blanks (`is_blank` = `char::is_whitespace` minus newline): NBSP (2 bytes), EM SPACE and
+    // IDEOGRAPHIC SPACE (3 bytes), NEL; as the final blank of a value, as the only character, inside a value
+    for w in ["x\u{a0}", "x\u{3000}", "\u{3000}", "x\u{2003}y", "x\u{85}", "é\u{2003}", "x \u{a0}", "x\u{3000} y"] {
+        v.push(w.into());
+    }
+    for n in names.iter().take(2) {
+        v.push(format!("{n}\u{3000}"));
+        v.push(format!("{n}\u{a0}"));
     }
     for n in names.iter().take(2) {
         v.push(format!("{n} é "));
@@ -461,6 +505,11 @@ const LINES: &[&str] = &[
     "case \\\n{0} in {1} \\\n| {2}) x;; esac",
     "{0} &&\\\n {1} \\\n {2}",
     "if {0} \\\n{1}; then \\\n{2}; fi",
+    // Unicode blanks separate tokens and are walked over by the blank rule
+    "{0}\u{3000}{1}",
+    "{0}\u{a0}{1} {2}",
+    "x\u{2003}{0} \u{3000}\\\n\u{a0}{1}",
+    "{0} >\u{3000}{1}\u{85}{2}",
     // command substitutions and backquotes: parsed by a nested parser WITHOUT aliases
     "{0} $({1} {2}) {3}",
     "$({0}) {1}",
@@ -703,7 +752,10 @@ fn main() {
     // (4) non-ASCII alias names and values: the blank rule and the recursion guard with byte length !=
     // character length
     let u_names = ["é", "あ", "😀", "a", "b"];
-    let u_values = ["é ", "あ ", "😀 ", "x é ", "é", "b ", "a ", "😀 é ", "", "x", "é あ ", "b", "a"];
+    let u_values = [
+        "é ", "あ ", "😀 ", "x é ", "é", "b ", "a ", "😀 é ", "", "x", "é あ ", "b", "a", "é\u{3000}", "b\u{a0}", "a\u{2003}",
+        "あ\u{3000}", "\u{a0}",
+    ];
     let u_lines = [
         "{0} {1}",
         "{0} {1} {2}",
@@ -715,6 +767,8 @@ fn main() {
         "é {0} あ {1} 😀 {2}",
         "{0}{1} {2}",
         "'{0}' {1} {2}",
+        "{0}\u{3000}{1}\u{a0}{2}",
+        "{0} \u{2003}\\\n\u{3000}{1} {2}",
     ];
     let nu = if o.thorough() { 4000 } else { 150 };
     for _ in 0..nu {
@@ -814,6 +868,17 @@ fn main() {
         "alias -- {n}={v}\n{n}",
         "unalias -- {n}\n{n}",
         "unalias {n} {n}\n{n}",
+        // `define` splits at the FIRST `=`; the name may be empty
+        "alias ={v}\n{n}",
+        "alias {n}=={v}\n{n}",
+        "alias {n}=\n{n} {m}",
+        "alias =x {n}={v}\nunalias ''\n{n}",
+        "alias ==\nalias {m}={n}\n{m}",
+        // a line continuation inside the command word / the operand: the word is still the literal `alias`
+        "al\\\nias {n}={v}\n{n}",
+        "unal\\\nias {n}\n{n}",
+        "alias {n}\\\n={v}\n{n}",
+        "\\\nalias {n}={v}\n{n}",
     ];
     let l_tpl = [
         "{0}",
@@ -830,6 +895,10 @@ fn main() {
         "alias {0}={v} {1}={w}\n{0} {1}\nunalias {0}\n{0} {1}",
         "{0} &&\n{1}\n{0}",
         "if {0}; then {1}; fi\n{0}",
+        "alias ={v}\n{0}",
+        "alias {0}=a=b {1}==\n{0} {1}",
+        "alias =\nunalias ''\n{0}",
+        "alia\\\ns {0}={v}\n{0}",
     ];
     let fill = |tpl: &str, r: &mut Rng, n: &str, m: &str| -> String {
         let v = small(r);
